@@ -36,7 +36,7 @@ ASSUMPTIONS = [
     "the two pad bytes of the undocumented AT5 outer header are not 'covered bytes' and are not corrupted",
     "the exhaustive 1..2-byte comparison of calculate() is a plain function comparison, not simulation; the 3-byte enumeration and the induction on length of the property text are not reproduced",
 ]
-PROBES = ["c06.single_bit", "c06.double_bit", "c06.burst", "c06.check_bytes_only", "c06.after_intact_original", "c06.special_register_frame", "c06.intact_special_register", "c06.prefix_valued_address", "c06.prefix_like_payload", "c06.special_final_check_value", "c06.long_frame", "c06.in_prefix", "c06.in_length", "c06.in_crc", "c06.in_payload", "c06.waited_for_bytes", "c06.function_audit"]
+PROBES = ["c06.single_bit", "c06.double_bit", "c06.burst", "c06.check_bytes_only", "c06.after_intact_original", "c06.special_register_frame", "c06.intact_special_register", "c06.prefix_valued_address", "c06.prefix_like_payload", "c06.header_only_frame", "c06.special_final_check_value", "c06.long_frame", "c06.in_prefix", "c06.in_length", "c06.in_crc", "c06.in_payload", "c06.waited_for_bytes", "c06.function_audit"]
 EXHAUSTIVE = True
 TRUSTED_BASE = ["ref/crc.py (bitwise CRC-16/MODBUS)", "ref/wire4.py, ref/wire5.py (framing)"]
 
@@ -160,6 +160,18 @@ def _special_frames(gen: int):
             fr = w.frame(w.ADDR_CLIENT, w.ADDR_CONSOLE, 0x33, types[1], got_final[val])
             assert fr[-2:] == val.to_bytes(2, "big"), (fr[-2:].hex(), hex(val))
             out.append((nm, fr))
+    # header-only frames (no payload: the check value covers the six header bytes alone) - of an unknown type, so that they
+    # are delivered - and one of them with a special check value
+    out.append(("empty", w.frame(w.ADDR_CLIENT, w.ADDR_CONSOLE, 0x34, types[2], b"")))
+    done = False
+    for t in types:
+        for pid in range(256):
+            if reg_of((w.ADDR_CLIENT, w.ADDR_CONSOLE, pid, t, 0, 0)) == 0xFFFF:
+                out.append(("emptyffff", w.frame(w.ADDR_CLIENT, w.ADDR_CONSOLE, pid, t, b"")))
+                done = True
+                break
+        if done:
+            break
     # covered bytes that look like the frame prefix: frames for another client (the console forwards them) whose
     # destination / source address is 0x55 or 0xAA - the span the CRC covers still starts at the address byte
     pay = bytes(rng.randrange(256) for _ in range(12))
@@ -354,6 +366,8 @@ def execute(sc: dict) -> dict:
         probes["c06.prefix_like_payload"] = 1
     if str(info.get("kind", "")).startswith("unknown:crc"):
         probes["c06.special_final_check_value"] = 1
+    if str(info.get("kind", "")).startswith("unknown:empty"):
+        probes["c06.header_only_frame"] = 1
     if str(info.get("kind", "")).startswith("long:") and info.get("frame_len", 0) > 1040:
         probes["c06.long_frame"] = 1
     hl = 8 if gen == 4 else 20
